@@ -315,7 +315,7 @@ def make_sandbox(vc, w, fit_fn, cls):
     def havoc_epochs(env, i, n):
         w.phase = "BETWEEN"
         w.next_epoch = w.starting_epoch + i
-        w.stop = vc.fresh_bool("stop@epoch")
+        w.stop = bool(vc.fresh_bool("stop@epoch"))      # a concrete python bool per path (so `is True` tests in the code work)
         w.stop_at_prev_epoch_end = False       # by the invariant a stop seen at an epoch end never reaches the loop head again
         w.shuffles_this_epoch = 0
         w.cur_epoch = None
@@ -333,7 +333,7 @@ def make_sandbox(vc, w, fit_fn, cls):
     def havoc_batches(env, j, n):
         w.phase = "IN_EPOCH"
         w.next_batch = j
-        w.stop = vc.fresh_bool("stop@batch")
+        w.stop = bool(vc.fresh_bool("stop@batch"))
         w.stop_at_prev_batch_end = False       # likewise for a stop seen at a batch end
         w.steps_this_epoch = j
         return {}
